@@ -10,20 +10,7 @@ Open Scope Z_scope.
 
 (** * Strings the splitter keeps intact *)
 
-(** the splitter's view of the body of a ['...'] literal: [e] = "the previous character was an
-    unescaped backslash".  A quote of the value (written doubled) or the closing quote must never
-    be met in that state. *)
-Fixpoint esc_scan (e : bool) (s : str) : bool :=
-  match s with
-  | [] => negb e
-  | c :: r =>
-      if e then negb (c =? 39) && esc_scan false r
-      else if c =? 92 then esc_scan true r
-      else esc_scan false r
-  end.
-(** every run of backslashes that is followed by a quote or ends the value has even length *)
-Definition esc_safe (s : str) : bool := esc_scan false s.
-Definition has_nl (s : str) : bool := existsb (Z.eqb 10) s.
+(** [esc_safe] and [has_nl] are defined in Lex/Splitter.v *)
 Definition str_ok (s : str) : bool := negb (has_nl s) && esc_safe s.
 
 (** * Identifiers that read back as themselves: upper-case ASCII words that are not keywords *)
